@@ -42,9 +42,7 @@ func (r *Decoder) produceBlankNode(r0 cursorio.DecodedRune) (*tokenBlankNode, er
 			return nil, grammar.R_BLANK_NODE_LABEL.Err(r.newOffsetError(cursorioutil.UnexpectedRuneError{Rune: r2.Rune}, append(uncommitted[:], r0, r1).AsDecodedRunes(), r2.AsDecodedRunes()))
 		}
 
-		r.commit(cursorio.DecodedRuneList{r0, r1}.AsDecodedRunes())
-
-		uncommitted = append(uncommitted, r2)
+		uncommitted = append(uncommitted, r0, r1, r2)
 	}
 
 	for {
@@ -74,7 +72,7 @@ DONE:
 		uncommitted = uncommitted[0 : len(uncommitted)-1]
 	}
 
-	if len(uncommitted) > 1 && !internal.IsRune_PN_CHARS(uncommitted[len(uncommitted)-1].Rune) {
+	if len(uncommitted) > 3 && !internal.IsRune_PN_CHARS(uncommitted[len(uncommitted)-1].Rune) {
 		return nil, grammar.R_BLANK_NODE_LABEL.Err(r.newOffsetError(
 			cursorioutil.UnexpectedRuneError{
 				Rune: uncommitted[len(uncommitted)-1].Rune,
@@ -85,8 +83,8 @@ DONE:
 	}
 
 	// Convert to rune slice for decoded string
-	decoded := make([]rune, len(uncommitted))
-	for i, dr := range uncommitted {
+	decoded := make([]rune, len(uncommitted)-2)
+	for i, dr := range uncommitted[2:] {
 		decoded[i] = dr.Rune
 	}
 
